@@ -377,6 +377,9 @@ pub struct RunEnd {
 /// End of a run: drains the quarantine (checking the poison) and reports leaks.
 pub fn run_end() -> RunEnd {
     RUN_ACTIVE.store(false, Ordering::SeqCst);
+    if cfg!(miri) {
+        return RunEnd { leaked_blocks: 0, leaked_bytes: 0, write_after_free: false, quarantined: 0 };
+    }
     let mut waf = false;
     let quarantined;
     // drain the quarantine
